@@ -3,6 +3,7 @@
    Definitions only compute; lemmas are in BytesFacts.v. *)
 From Coq Require Export Ascii String.
 From Coq Require Export List NArith ZArith Bool.
+From Verif.Base Require Export Ord.
 Export ListNotations.
 Local Open Scope N_scope.
 
@@ -50,10 +51,7 @@ Fixpoint bytes_cmp (a b : bytes) : comparison :=
   | [], _ :: _ => Lt
   | _ :: _, [] => Gt
   | x :: a', y :: b' =>
-      match code x ?= code y with
-      | Eq => bytes_cmp a' b'
-      | c => c
-      end
+      thenc (code x ?= code y) (bytes_cmp a' b')
   end.
 
 Definition all_b (p : ascii -> bool) (s : bytes) : bool := forallb p s.
